@@ -104,12 +104,12 @@ class C14(object):
 
     def gen(self, rs, ctx):
         rnd = random.Random(rs)
-        scen = rnd.choice(["roundtrip", "roundtrip", "sort", "overlaps", "overlaps", "kernel", "kernel", "pythreads"])
+        scen = rnd.choice(["roundtrip", "roundtrip", "sort", "overlaps", "overlaps", "kernel", "kernel", "pythreads", "pairrow"])
         wide = rnd.random() < (0.03 if ctx.tier == "thorough" else 0.004)
         ns, nf = rnd.choice([1, 2, 3, 5, 8, 13, 24]), rnd.choice([1, 2, 4, 7, 16, 33])
         if wide:
             ns, nf = rnd.choice([(2, 65534), (3, 40000), (65534, 2)])
-        if scen == "pythreads":
+        if scen in ("pythreads", "pairrow"):
             ns, nf = min(ns, 13), min(nf, 16)
         return {"entry": "sparse/" + scen, "scen": scen, "ns": ns, "nf": nf, "wseed": rnd.getrandbits(48),
                 "strategy": rnd.choice(["random", "random", "pct", "rr", "rtc"]), "p_inv": rnd.choice([1, 2, 4, 16]),
@@ -184,11 +184,15 @@ class C14(object):
                         selected = m
                     else:
                         cut = rnd.choice([0, 1, 500, 40000, int(data[rnd.randrange(ns), rnd.randrange(nf)])])
+                        if data.dtype == np.float32 and rnd.random() < 0.25:
+                            # dead pixels of processed data: not-a-number is not above any cut
+                            for _ in range(rnd.randint(1, 3)):
+                                data[rnd.randrange(ns), rnd.randrange(nf)] = np.nan
                         dm = None if rnd.random() < 0.3 else (mask if mask.dtype == np.uint8 else mask.astype(np.uint8))
                         selected = (data > cut) & (m if dm is not None else True)
                         if selected.sum() == 0:  # the library represents an empty frame as None: not part of the statement
                             cut = 0
-                            data[m] = np.maximum(data[m], 1)
+                            data[m] = np.fmax(data[m], 1)
                             selected = (data > cut) & (m if dm is not None else True)
                         try:
                             spf = sf.from_data_cut(data, cut, detectormask=dm)
@@ -212,6 +216,13 @@ class C14(object):
                                 viol = V("wrong-values", "%s: pixel values do not travel with their coordinates" % route)
                         if viol is None:
                             want = np.where(selected, data, 0).astype(data.dtype)
+                            if rnd.random() < 0.5:
+                                # the caller reads the next frame into the same image buffer: the sparse frame made from the
+                                # previous content must not change with it
+                                data[...] = 7
+                                if (spf.pixels["intensity"] != want[selected]).any():
+                                    viol = V("roundtrip-differs", "%s: after the caller reused its image buffer the frame no longer holds "
+                                                                  "the pixels that were selected" % route)
                             dense = spf.to_dense("intensity")
                             out = enginea.garbage_array((ns, nf), data.dtype, cfg["garbage_seed"] + 5, 1, 1, 9)
                             dense2 = spf.to_dense("intensity", out=out)
@@ -259,6 +270,70 @@ class C14(object):
                     nontrivial = len(r) >= 2
                     digs.append(enginea.sha(spf.row, spf.col))
             sts.append(sim.stats())
+        elif scen == "pairrow":
+            # a scan (HDF5 file -> SparseScan -> cplabel) whose frames, taken in omega order, are paired by
+            # sinograms.properties.pairrow; some frames are empty.  Every pair of consecutive non-empty frames must be
+            # reported with exactly its shared-pixel counts, and nothing else
+            import h5py
+            from ImageD11.sinograms import properties as sprops
+            nfr = rnd.randint(2, 7)
+            ims = []
+            for q in range(nfr):
+                im = (g.random((ns, nf)) * 100).astype(np.float32) * rand_mask(rnd, g, ns, nf)
+                if q and rnd.random() < 0.5:
+                    im = np.where(g.random((ns, nf)) < 0.6, ims[-1], im).astype(np.float32)     # shares pixels with the previous one
+                if rnd.random() < 0.3:
+                    im[:] = 0                                                                   # an empty frame
+                ims.append(im)
+            omega = g.permutation(nfr).astype(float) * rnd.choice([1.0, 0.25])                # frames are not stored in omega order
+            p = os.path.join(ctx.scratch, "c14_scan_%d.h5" % os.getpid())
+            if os.path.exists(p):
+                os.remove(p)
+            with h5py.File(p, "w") as h:
+                grp = h.create_group("1.1")
+                grp.attrs["nframes"], grp.attrs["shape0"], grp.attrs["shape1"] = nfr, ns, nf
+                rr_, cc_ = zip(*[np.nonzero(im > 0) for im in ims])
+                grp["row"] = np.concatenate(rr_).astype(np.uint16)
+                grp["col"] = np.concatenate(cc_).astype(np.uint16)
+                grp["intensity"] = np.concatenate([im[im > 0] for im in ims]).astype(np.float32)
+                grp["nnz"] = np.array([int((im > 0).sum()) for im in ims], np.int32)
+                grp["measurement/rot"] = omega
+            begin()
+            with contextlib.redirect_stdout(io.StringIO()):
+                sc = sf.SparseScan(p, "1.1")
+                sc.cplabel(threshold=0, countall=False)
+                if "labels" not in sc.names:
+                    sc.names.append("labels")
+                pairs = sprops.pairrow(sc, 7)
+            sts.append(sim.stats())
+            order = np.argsort(omega)
+            lab_of = []
+            pos = 0
+            for im in ims:
+                nq = int((im > 0).sum())
+                lab_of.append(np.asarray(sc.labels)[pos:pos + nq])
+                pos += nq
+            want_pairs = {}
+            for a_, b_ in zip(order[:-1], order[1:]):
+                if (ims[a_] > 0).any() and (ims[b_] > 0).any():
+                    ra, ca = np.nonzero(ims[a_] > 0)
+                    rb, cb = np.nonzero(ims[b_] > 0)
+                    want_pairs[(7, int(a_), 7, int(b_))] = pair_counter(ra, ca, lab_of[a_], rb, cb, lab_of[b_])
+            got_keys = set((int(k[0]), int(k[1]), int(k[2]), int(k[3])) for k in pairs)
+            if got_keys != set(want_pairs):
+                viol = V("overlaps-linear-wrong", "pairrow reports frame pairs %s; consecutive non-empty frames in omega order are %s "
+                                                  "(empty frames: %s)" % (sorted(got_keys), sorted(want_pairs),
+                                                                          [q for q in range(nfr) if not (ims[q] > 0).any()]))
+            else:
+                for k_, (npr, arr) in pairs.items():
+                    kk = (int(k_[0]), int(k_[1]), int(k_[2]), int(k_[3]))
+                    gotc = collections.Counter() if not npr else collections.Counter({(int(x[0]), int(x[1])): int(x[2]) for x in arr})
+                    if gotc != want_pairs[kk] or npr != len(want_pairs[kk]):
+                        viol = V("overlaps-linear-wrong", "pairrow, frames %s: reported %s, shared-pixel counts are %s" %
+                                 (kk[1::2], dict(gotc), dict(want_pairs[kk])))
+                        break
+            nontrivial = any(len(v_) for v_ in want_pairs.values())
+            digs.append(enginea.sha(sorted(got_keys), np.asarray(sc.labels)))
         elif scen == "pythreads":
             # 2-3 Python threads (under the seeded Python scheduler, pre-emption at every source line of sparseframe.py)
             # convert their own images at the same time; the compiled kernels run on the instrumented module
@@ -359,6 +434,8 @@ class C14(object):
             kind = rnd.choice(["u16", "u32", "f32"])
             if kind == "f32":
                 img = (g.random((ns, nf)) * 1000).astype(np.float32)
+                if rnd.random() < 0.25:
+                    img[rnd.randrange(ns), rnd.randrange(nf)] = np.nan
             else:
                 img = g.integers(0, 2 ** (16 if kind == "u16" else 32) - 1, (ns, nf)).astype(np.uint16 if kind == "u16" else np.uint32)
             cut = rnd.choice([0, 1, 500, 40000])
